@@ -15,6 +15,9 @@ pub enum StOp {
     Write { key: u8, val: u32 },
     Read { key: u8 },
     Notify { key: u8 },
+    /// A notify-read whose caller gives up (its future is dropped) right after the command
+    /// has been sent: the store is left with a waiter nobody listens to.
+    NotifyDrop { key: u8 },
     Yield { n: u8 },
 }
 
@@ -92,12 +95,14 @@ pub async fn run(sc: &Scenario, dir: &str) -> RunReport {
     let mut handles = Vec::new();
     let mut waiter_handles = Vec::new();
     let waiters: Arc<Mutex<Vec<tokio::task::JoinHandle<()>>>> = Arc::new(Mutex::new(Vec::new()));
+    let dropped: Arc<Mutex<std::collections::HashSet<usize>>> = Arc::new(Mutex::new(std::collections::HashSet::new()));
     for (ci, ops) in cfg.clients.iter().enumerate() {
         let mut st = store.clone();
         let ops = ops.clone();
         let ids = op_ids[ci].clone();
         let log = log.clone();
         let waiters = waiters.clone();
+        let dropped = dropped.clone();
         handles.push(tokio::spawn(async move {
             for (i, op) in ops.iter().enumerate() {
                 let id = ids[i];
@@ -120,7 +125,11 @@ pub async fn run(sc: &Scenario, dir: &str) -> RunReport {
                             Err(_) => log.lock().unwrap().push(Ev::Return { op: id, result: Some(b"<error>".to_vec()) }),
                         }
                     }
-                    StOp::Notify { key } => {
+                    StOp::Notify { key } | StOp::NotifyDrop { key } => {
+                        let give_up = matches!(op, StOp::NotifyDrop { .. });
+                        if give_up {
+                            dropped.lock().unwrap().insert(id);
+                        }
                         // The command is sent now (so its place in the command order is fixed);
                         // the reply is awaited by a separate task so that the client goes on.
                         let mut st2 = st.clone();
@@ -147,8 +156,11 @@ pub async fn run(sc: &Scenario, dir: &str) -> RunReport {
                                 Err(_) => log2.lock().unwrap().push(Ev::Return { op: id, result: Some(b"<error>".to_vec()) }),
                             }
                         });
-                        waiters.lock().unwrap().push(h);
                         let _ = rx_sent.await;
+                        if give_up {
+                            h.abort();
+                        }
+                        waiters.lock().unwrap().push(h);
                     }
                 }
             }
@@ -164,6 +176,7 @@ pub async fn run(sc: &Scenario, dir: &str) -> RunReport {
     }
 
     // ---- check the history against the model -------------------------------------------------
+    let dropped_ops: std::collections::HashSet<usize> = dropped.lock().unwrap().clone();
     let events = log.lock().unwrap().clone();
     let mut invoked: Vec<(usize, char, u8, u32)> = Vec::new();
     let mut taken: Vec<(char, Vec<u8>, Vec<u8>)> = Vec::new();
@@ -226,6 +239,11 @@ pub async fn run(sc: &Scenario, dir: &str) -> RunReport {
     if harness_error.is_none() {
         for (op, kind, key, _) in &invoked {
             if *kind == 'w' {
+                continue;
+            }
+            if dropped_ops.contains(op) {
+                // The caller gave up: whether a reply still reached it is not judged.
+                *probes.entry("st.waiter-dropped".into()).or_insert(0) += 1;
                 continue;
             }
             match (expected.get(op), returned.get(op)) {
